@@ -102,7 +102,7 @@ def new_client(module_id=10, host_id=0, name="", timecode=False):
     c._server = ("", -1)
     c._connected = True
     c._header_cls = header_class(timecode)
-    c._recv_buffer = None
+    # c._recv_buffer keeps what the real __init__ allocated
     c._sub_all = False
     c._subscribed_types = LinearSet() if SHADOW else set()
     c._paused_types = LinearSet() if SHADOW else set()
